@@ -26,6 +26,7 @@ func checkC20(r *Run) {
 	r.Rule("C20.R2.filter", "every StreamerResponse with a frame sent by streamer.Flow carries rf.frame.KeepKeys(s.Channels) and is sent only when that frame is non-empty", 2)
 	r.Rule("C20.R3.pairing", "streamer.Flow defers the disconnect function of relay.connect inside the goroutine it starts; disconnect starts draining before delta.Disconnect and waits for the drain afterwards", 3)
 	r.Rule("C20.R4.confine", "DynamicDeltaMultiplier.Source.Out is accessed only in functions reachable solely from DynamicDeltaMultiplier.Flow; Connect and Disconnect only send on the connection channels", 4)
+	r.Rule("C20.R7.blocking", "frames are handed to the relay with a blocking send: a send of a relayResponse is never a select alternative next to a default clause (shedding there drops the frame for every streamer, ready or not)", 1)
 	r.Rule("C20.R6.own", "a streamer's subscribed key set is only ever replaced as a whole by a value not built on the old slice: the initial slice belongs to the caller's configuration and may be shared between streamers", 1)
 	r.Rule("C20.R5.rearm", "AbstractMultiSource.SendToEachWithTimeout sends inside a select with ctx.Done and the timer, and the timer case re-arms the timer before the next send", 2)
 
@@ -36,6 +37,7 @@ func checkC20(r *Run) {
 	checkFanoutConfinement(r, p)
 	checkRearm(r, p)
 	checkSubscriptionOwnership(r, p)
+	checkRelaySendBlocks(r, p)
 }
 
 // checkSubscriptionOwnership decides C20.R6: the streamer's key set starts out as the
@@ -574,4 +576,50 @@ func checkRearm(r *Run, p *Prog) {
 	start := Point{first.B, first.I - 1}
 	path := c.leavesWithout(start, enclosingLoop(fn, sel), nil, isReset)
 	r.ObPath("C20.R5.rearm", "the timeout case re-arms the timer before the next consumer", p.Position(timerClause.Pos()), path == nil, "after one slow consumer used up the timer the next sends would have no timeout: a second stalled consumer blocks the relay and, behind it, every writer", path)
+}
+
+// checkRelaySendBlocks decides C20.R7.
+func checkRelaySendBlocks(r *Run, p *Prog) {
+	n := 0
+	for _, fn := range p.FuncsOfPkg("cesium") {
+		if fn.Body == nil {
+			continue
+		}
+		var stack []ast.Node
+		ast.Inspect(fn.Body, func(x ast.Node) bool {
+			if x == nil {
+				stack = stack[:len(stack)-1]
+				return true
+			}
+			if _, isLit := x.(*ast.FuncLit); isLit {
+				return false
+			}
+			stack = append(stack, x)
+			send, ok := x.(*ast.SendStmt)
+			if !ok {
+				return true
+			}
+			tv, ok := fn.Pkg.TypesInfo.Types[send.Value]
+			if !ok || !namedTypeIs(tv.Type, "cesium", "relayResponse") {
+				return true
+			}
+			n++
+			shed := false
+			for i := len(stack) - 1; i >= 0; i-- {
+				if sel, ok := stack[i].(*ast.SelectStmt); ok {
+					for _, cc := range sel.Body.List {
+						if comm, ok := cc.(*ast.CommClause); ok && comm.Comm == nil {
+							shed = true
+						}
+					}
+					break
+				}
+			}
+			r.Ob("C20.R7.blocking", "relay send in "+fn.Name, posOf(p, send), !shed, "the send sits next to a default clause: when the relay's pipe is full the frame is dropped for every streamer, also the ones that keep up")
+			return true
+		})
+	}
+	if n < 1 {
+		r.Undecide("C20.R7: no send of a relayResponse found in package cesium")
+	}
 }
